@@ -229,6 +229,8 @@ type savedSnap struct {
 }
 
 type sched struct {
+	polRules map[string]string
+	polDCs   map[string]int
 	run   *core.Run
 	rng   *core.Rand
 	name  string
@@ -1025,7 +1027,18 @@ func (s *sched) aclChange() {
 	s.aclSeq++
 	rules := fmt.Sprintf(`service_prefix "" { policy = "read" } key_prefix "k%d" { policy = "read" }`, s.aclSeq)
 	pol := func(id, name string) []byte {
-		p := &structs.ACLPolicy{ID: id, Name: name, Rules: rules, Description: fmt.Sprint(s.aclSeq)}
+		// every third policy update keeps the rules and only moves the datacenter scope (which decides
+		// whether the policy applies here at all): the linked tokens' permissions change all the same
+		if s.polRules == nil {
+			s.polRules, s.polDCs = map[string]string{}, map[string]int{}
+		}
+		key := id
+		if prev, ok := s.polRules[key]; ok && s.aclSeq%3 == 0 {
+			rules = prev
+			s.polDCs[key]++
+		}
+		s.polRules[key] = rules
+		p := &structs.ACLPolicy{ID: id, Name: name, Rules: rules, Description: "policy", Datacenters: [][]string{nil, {"dc1"}, {"dc1", "dc2"}}[s.polDCs[key]%3]}
 		p.SetHash(true)
 		return fsmEnc(structs.ACLPolicySetRequestType, &structs.ACLPolicyBatchSetRequest{Policies: structs.ACLPolicies{p}})
 	}
